@@ -252,8 +252,22 @@ func classifyCrash(all string, err error) (viol, string) {
 		}
 	}
 	if repoFn == "" {
-		if kind == "fatal error" && strings.Contains(first, "concurrent map") {
-			return viol{Oracle: "crash", Msg: first + " (library map shared by repository code)"}, ""
+		// No repository frame on the dying goroutine. A runtime error inside a library
+		// goroutine (net/http's transport loops, gorilla's readers, ...) that no harness
+		// frame is part of is the simulated program crashing through its misuse of the
+		// library (e.g. a buffer it recycled while the library still read from it).
+		harnessFrame := false
+		libFn := ""
+		for _, f := range funcs {
+			if strings.HasPrefix(f, "verif/") && f != "verif/sim.(*Conn).Read" && f != "verif/sim.(*Conn).Write" {
+				harnessFrame = true
+			}
+			if libFn == "" && !strings.HasPrefix(f, "panic") && !strings.HasPrefix(f, "runtime.") && !strings.HasPrefix(f, "verif/") {
+				libFn = f
+			}
+		}
+		if !harnessFrame && (strings.Contains(first, "runtime error") || kind == "fatal error") {
+			return viol{Oracle: "crash", Msg: first + " | in library code " + libFn + " on a goroutine without repository or harness frames"}, ""
 		}
 		return viol{}, fmt.Sprintf("process died outside repository code (%s):\n%s", first, tail(block, 30))
 	}
@@ -283,6 +297,11 @@ func classifyRaces(stderr string) ([]viol, string) {
 			body := secs[i+1]
 			top := ""
 			for _, f := range frameFuncs(body) {
+				// SimNet's Read/Write stand where the kernel's socket layer would: the
+				// buffer they touch belongs to the caller, so they count as library frames
+				if f == "verif/sim.(*Conn).Read" || f == "verif/sim.(*Conn).Write" {
+					continue
+				}
 				if strings.HasPrefix(f, "verif/") {
 					harness = true
 				}
@@ -306,7 +325,7 @@ func classifyRaces(stderr string) ([]viol, string) {
 		}
 		if harness || !hasRepo {
 			if trouble == "" {
-				trouble = "race report involving harness or no repository frame:\n" + tail(p, 40)
+				trouble = "race report involving harness or no repository frame:\n" + head(p, 45)
 			}
 			continue
 		}
@@ -387,6 +406,14 @@ func main() {
 		fmt.Fprintln(os.Stderr, "unknown command")
 		os.Exit(2)
 	}
+}
+
+func head(s string, n int) string {
+	lines := strings.Split(s, "\n")
+	if len(lines) > n {
+		lines = lines[:n]
+	}
+	return strings.Join(lines, "\n")
 }
 
 func baseSeed() uint64 {
